@@ -2,7 +2,7 @@
    the correspondence runner.  Directives: those of ExtrOcamlBasic only; nat, positive, N, Z stay
    Coq's inductive types. *)
 From Coq Require Import Extraction ExtrOcamlBasic List NArith ZArith.
-From GmsmVerif Require Import Lib.Outcome X509.NameMatchSpec X509.PathSpec X509.VerifyModel X509.CreateRun X509.DerLayer X509.ExtModel X509.CrlModel.
+From GmsmVerif Require Import Lib.Outcome X509.NameMatchSpec X509.PathSpec X509.VerifyModel X509.CreateRun X509.DerLayer X509.ExtModel X509.CrlModel X509.CertModel X509.CertRun SM2.SM2Bytes.
 Extraction Language OCaml.
 Extraction "x509_model.ml"
   Verify_model sigchecks_used VerifyHostname_model matchHostnames_model matchNameConstraint_model
@@ -10,4 +10,5 @@ Extraction "x509_model.ml"
   c09_lookup
   marshalSANs_model parseSANExtension_model build_eku parse_eku build_policies parse_policies
   build_ski parse_ski build_aki parse_aki build_name_constraints parse_name_constraints
-  read_tlv build_tbs_raw parse_tbs_raw revocation_list_exts create_crl_exts Z.add Z.mul Z.opp.
+  read_tlv build_tbs_raw parse_tbs_raw revocation_list_exts create_crl_exts Z.add Z.mul Z.opp
+  build_tbs_cert_run mkFields os2ip.
